@@ -13,6 +13,12 @@ E == Ev[l]
 IsEv(name) == l <= Len(Ev) /\ E.ev = name
 Adv == l' = l + 1 /\ tid' = tid
 Stay == UNCHANGED <<tid, l>>
+\* traces recorded without the _iter seam carry no iter events: the iteration steps are then silent, the new rank is
+\* chosen by the specification and pinned down by the sizes of the next request
+NoIter == "noiter" \in DOMAIN T /\ T.noiter
+QCap == 256
+TSilentIter == /\ NoIter /\ Stay
+               /\ \E q \in 1..QCap : APreL(q) \/ APreR(q) \/ AMainIterL(q) \/ AMainIterR(q)
 TInit == tid \in 1..Len(Traces) /\ l = 1 /\ AInitWith(Traces[tid].cfg)
 TPreL == IsEv("iter") /\ E.ltr = TRUE /\ APreL(E.q) /\ Adv
 TPreR == IsEv("iter") /\ E.ltr = FALSE /\ APreR(E.q) /\ Adv
@@ -33,7 +39,7 @@ TReturn == /\ IsEv("ret") /\ AReturn /\ Adv
            /\ E.stop = stop /\ E.m = m /\ E.mc = mc /\ E.nswp = nsw
            /\ ChainOK /\ E.ranks = Ranks /\ E.shape = cfg.n /\ E.finite
            /\ E.e_ok /\ E.evld_ok
-TNext == TPreL \/ (APreLFold /\ Stay) \/ TPreR \/ TPreRFold \/ TRequest \/ TFCall \/ TNoCall \/ TReqDone
+TNext == TSilentIter \/ TPreL \/ (APreLFold /\ Stay) \/ TPreR \/ TPreRFold \/ TRequest \/ TFCall \/ TNoCall \/ TReqDone
          \/ TMainIterL \/ (ALtrFold /\ Stay) \/ TMainIterR \/ (ARtlFold /\ Stay) \/ TCb
          \/ (ARetFoldL /\ Stay) \/ (ARetFoldR /\ Stay) \/ TReturn
 TSpec == TInit /\ [][TNext]_tvars
